@@ -97,6 +97,9 @@ func (w *World) transparent(h *ssa.Function) bool {
 	if w.roleOpaque[h] {
 		return false
 	}
+	if w.forceTransp[h] {
+		return true // an exported function of the rule's own package that a rule asked to read like a helper
+	}
 	if h.Synthetic != "" {
 		// the per-type entry of a generic helper (it only converts and calls the generic body) is as transparent as
 		// the helper itself
@@ -255,6 +258,9 @@ func (w *World) addressTaken(g *ssa.Function) bool {
 // function value).
 func (w *World) dynCallable(g *ssa.Function) bool {
 	if w.callback(g) {
+		return false
+	}
+	if w.forceTransp[g] && !w.addressTaken(g) {
 		return false
 	}
 	if w.addressTaken(g) {
